@@ -5,7 +5,7 @@
 use nvh_common::*;
 use std::time::Duration;
 use tensor_chain::block::Transaction;
-use tensor_chain::consensus::{ConsensusConfig, ConsensusManager};
+use tensor_chain::consensus::{ConsensusConfig, ConsensusManager, DeltaVector};
 use tensor_chain::distributed_tx::{
     lock_handle_current, verif_clock, DistributedTxConfig, DistributedTxCoordinator, PrepareRequest, PrepareVote, TxParticipant, TxPhase,
 };
@@ -58,6 +58,7 @@ enum Ev {
     Timeouts,
     TakeAborts,
     Advance(u64),
+    Stray(u64, u64, bool),
 }
 impl Ev {
     fn coq(&self) -> String {
@@ -75,6 +76,7 @@ impl Ev {
             Ev::Timeouts => "ETimeouts".into(),
             Ev::TakeAborts => "ETakeAborts".into(),
             Ev::Advance(d) => format!("EAdvance {d}"),
+            Ev::Stray(t, s, y) => format!("EStray {t} {s} {}", b(*y)),
         }
     }
 }
@@ -314,6 +316,24 @@ impl World {
                 verif_clock::set(Some(self.now));
                 vec![]
             }
+            Ev::Stray(t, s, yes) => {
+                // a vote carrying tx's id from a shard that is not one of its participants (misrouted / stale)
+                let v = if *yes {
+                    PrepareVote::Yes { lock_handle: self.h0 - 1, delta: DeltaVector::from_sparse(SparseVector::from_dense(&[0.0, 0.0]), Default::default(), self.real(*t)) }
+                } else {
+                    PrepareVote::Conflict { similarity: 1.0, conflicting_tx: 0 }
+                };
+                let r = match self.c.record_vote(self.real(*t), *s as usize, v) {
+                    Ok(None) => 0,
+                    Ok(Some(TxPhase::Prepared)) => 1,
+                    Ok(Some(_)) => 2,
+                    Err(tensor_chain::distributed_tx::VoteRecordError::TxNotFound(_)) => 3,
+                    Err(tensor_chain::distributed_tx::VoteRecordError::WrongPhase { .. }) => 4,
+                    Err(tensor_chain::distributed_tx::VoteRecordError::DuplicateVote { .. }) => 5,
+                };
+                dist.hit("ev.stray_vote");
+                vec![r]
+            }
         }
     }
 }
@@ -418,6 +438,11 @@ fn run_random(r: &mut Rng, dist: &mut Dist) -> Outcome {
             Ev::Timeouts
         } else if k < 94 {
             Ev::TakeAborts
+        } else if k < 97 && nb > 0 {
+            // stray vote from a shard that is not a participant of the transaction
+            let t = r.range(1, nb);
+            let outsiders: Vec<u64> = (0..np + 1).filter(|s| !w.parts[t as usize - 1].contains(s)).collect();
+            Ev::Stray(t, *r.pick(&outsiders), r.chance(3, 4))
         } else {
             Ev::Advance(*r.pick(&[1u64, 10, 21, 51, 101, 5001]))
         };
@@ -514,6 +539,69 @@ fn main() {
         ];
         let o = run_script(acts, 2, 2, 5000, &parts0, &mut dist);
         sched.push(&o.term, "corpus orderly commit with duplicated prepare/vote/commit, then an aborted tx on an absent key", true);
+    }
+
+    {
+        // a stray Yes from non-participant shard 2 must not stand in for participant 1 whose prepare was lost
+        let parts0 = vec![(vec![(0u64, 1u64)], 30000u64), (vec![], 30000u64)];
+        let acts = vec![
+            Act::Ev(Ev::Begin(vec![0, 1], vec![(0, put(0, 2)), (1, put(1, 3))], false)),
+            Act::Deliver("prepare", 1, 0, false),
+            Act::Ev(Ev::Drop(0)), // the prepare for shard 1 is lost
+            Act::Deliver("vote", 1, 0, false),
+            Act::Ev(Ev::Stray(1, 2, true)),
+            Act::Ev(Ev::Commit(1)),
+            Act::Ev(Ev::Stray(1, 2, true)),
+            Act::Ev(Ev::Stray(1, 3, false)),
+            Act::Ev(Ev::Commit(1)),
+        ];
+        let o = run_script(acts, 2, 1, 5000, &parts0, &mut dist);
+        sched.push(&o.term, "corpus stray vote: tx over shards {0,1}; prepare to 1 lost; Yes from 0; Yes from non-participant shard 2; commit must be refused", true);
+    }
+    {
+        // a stale expired lock of a never-resolved T0 sits on k0 at shard 0; T1 prepares k0 (fresh lock), T2 must be refused
+        let parts0 = vec![(vec![(0u64, 1u64)], 50u64), (vec![], 30000u64)];
+        let acts = vec![
+            Act::Ev(Ev::Begin(vec![0], vec![(0, put(0, 5))], false)),
+            Act::Deliver("prepare", 1, 0, false),
+            Act::Ev(Ev::Drop(0)), // T0's vote is lost; T0 is never resolved at shard 0
+            Act::Ev(Ev::Advance(51)),
+            Act::Ev(Ev::Begin(vec![0, 1], vec![(0, put(0, 7)), (1, put(1, 8))], false)),
+            Act::Deliver("prepare", 2, 0, false),
+            Act::Deliver("prepare", 2, 1, false),
+            Act::Ev(Ev::Begin(vec![0, 1], vec![(0, put(0, 9)), (1, put(1, 9))], false)),
+            Act::Deliver("prepare", 3, 0, false),
+            Act::Deliver("prepare", 3, 1, false),
+            Act::Deliver("vote", 2, 0, false),
+            Act::Deliver("vote", 2, 1, false),
+            Act::Ev(Ev::Commit(2)),
+            Act::Deliver("commit", 2, 0, false),
+            Act::Deliver("commit", 2, 1, false),
+            Act::Deliver("vote", 3, 0, false),
+            Act::Deliver("vote", 3, 1, false),
+            Act::Ev(Ev::Abort(3)),
+            Act::Deliver("abort", 3, 0, false),
+            Act::Deliver("abort", 3, 1, false),
+        ];
+        let o = run_script(acts, 2, 3, 100000, &parts0, &mut dist);
+        sched.push(&o.term, "corpus stale lock: never-resolved T1 leaves an expired lock on k0; T2 prepares k0+k1 and commits; T3 on the same keys must get Conflict, its abort must not touch T2's data", true);
+    }
+    {
+        // the commit reaches shard 0 only after its key locks expired: it must still be applied
+        let parts0 = vec![(vec![(0u64, 1u64)], 50u64), (vec![], 30000u64)];
+        let acts = vec![
+            Act::Ev(Ev::Begin(vec![0, 1], vec![(0, put(0, 7)), (1, put(1, 8))], false)),
+            Act::Deliver("prepare", 1, 0, false),
+            Act::Deliver("prepare", 1, 1, false),
+            Act::Deliver("vote", 1, 0, false),
+            Act::Deliver("vote", 1, 1, false),
+            Act::Ev(Ev::Commit(1)),
+            Act::Deliver("commit", 1, 1, false),
+            Act::Ev(Ev::Advance(51)),
+            Act::Deliver("commit", 1, 0, false),
+        ];
+        let o = run_script(acts, 2, 1, 100000, &parts0, &mut dist);
+        sched.push(&o.term, "corpus late commit: shard 1 applies in time, shard 0 gets the commit 51 ms later, after its 50 ms key locks expired", true);
     }
 
     for _ in 0..args.budget(700, 30000) {
